@@ -16,7 +16,7 @@ const c11MaxNodes = 7
 
 // c11Op is one graph-building operation.
 type c11Op struct {
-	Kind string `json:"kind"`          // "link" | "unlink"
+	Kind string `json:"kind"`          // "link" | "unlink" | "gvacuum" (graph vacuum: every closed version is reclaimed, active ones stay)
 	Src  int    `json:"src"`           // node index
 	Dst  int    `json:"dst"`           // node index
 	Rel  string `json:"rel"`           // relation name
@@ -82,7 +82,7 @@ type c11Effect struct {
 type c11Model struct {
 	vers []c11Ver
 	// history flags
-	sawSoft, sawHard, sawEvolve, sawInverse, sawRelink bool
+	sawSoft, sawHard, sawEvolve, sawInverse, sawRelink, sawVacuum bool
 }
 
 func (m *c11Model) addEdge(s, t int, rel string, w int, eff *c11Effect) {
@@ -156,6 +156,17 @@ func (m *c11Model) apply(op c11Op) c11Effect {
 		if op.Inv != "" {
 			m.removeEdge(op.Dst, op.Src, op.Inv, op.Hard, &eff)
 		}
+	case "gvacuum":
+		kept := m.vers[:0]
+		for _, v := range m.vers {
+			if v.D != 0 {
+				eff.Hard++
+				continue
+			}
+			kept = append(kept, v)
+		}
+		m.vers = kept
+		m.sawVacuum = true
 	}
 	return eff
 }
@@ -500,6 +511,9 @@ func c11Classify(c c11Case) (bool, []string) {
 	}
 	if m.sawRelink {
 		lab["g:relinked-after-delete"] = true
+	}
+	if m.sawVacuum {
+		lab["g:graph-vacuum-of-closed-versions"] = true
 	}
 	for _, v := range c.Vec {
 		if v == 0 {
